@@ -292,6 +292,19 @@ def corpus():
         dd = {"bundles": [bsub], "top": "Top", "modules": [copy.deepcopy(hasbs), {"name": "Top", "sigs": [sgl("s1"), sgl("s2"), sgl("s3"), sgl("s4")], "bundles": [],
               "insts": [{"n": "i", "of": {"k": "module", "name": "HasBS"}, "conns": [["bp", {"k": "anon", "fields": fields}]]}]}]}
         extra_after.append({"class": "bad_member", "site": f"corpus:extra-member-{where}-nested-anonymous-bundle", "design": dd})
+        # the same on an instance array: the first ConnTypes pass does not look at arrays, so nothing but the flattener sees this
+        da = copy.deepcopy(dd)
+        da["modules"][1]["insts"][0]["array"] = 2
+        extra_after.append({"class": "bad_member", "site": f"corpus:extra-member-{where}-nested-anonymous-bundle-on-array", "design": da})
+    # an instance array whose bundle port is given a bundle instance of another type, which has the port's members and one more
+    hasd = {"name": "HasD", "sigs": [], "bundles": [{"n": "bp", "of": "Diff", "port": True}],
+            "insts": [{"n": "r1", "of": copy.deepcopy(r), "conns": [["p", {"k": "bref", "root": "bp", "path": ["p"]}], ["n", {"k": "bref", "root": "bp", "path": ["n"]}]]}]}
+    for arr in (True, False):
+        inst = {"n": "i", "of": {"k": "module", "name": "HasD"}, "conns": [["bp", {"k": "bundle", "n": "d3"}]]}
+        if arr:
+            inst["array"] = 2
+        dw = {"bundles": [copy.deepcopy(_gd.DIFF), copy.deepcopy(diff3)], "top": "Top", "modules": [copy.deepcopy(hasd), {"name": "Top", "sigs": [], "bundles": [{"n": "d3", "of": "Diff3", "port": False}], "insts": [inst]}]}
+        extra_after.append({"class": "bad_member", "site": "corpus:bundle-port-given-instance-of-wider-type" + ("-on-array" if arr else ""), "design": dw})
     more = hidden + extra_after + [{"class": "bad_member", "site": "corpus:bundle-instance-of-wider-type-in-anonymous-bundle", "design": anoninst}] + [{"class": "noconn_referenced", "site": "corpus:reference-in-anonymous-bundle", "design": ncanon},
                      {"class": "bad_member", "site": "corpus:pair-on-wider-bundle-type", "design": pairtri}]
     return more + [{"class": "missing_connection", "site": "corpus", "design": d1}, {"class": "width_mismatch", "site": "corpus", "design": d2},
